@@ -143,6 +143,14 @@ def sensitivity(only=None):
     return ok, out
 
 
+def fidelity():
+    """the repository's own simulator backend under the same kernel and probes: workflow finishes, C01 invariants hold"""
+    rc, o = run(['./run', 'xsim', '--runs', '96', '--no-evidence'])
+    ok = rc == 0
+    print('fidelity  xsim (repository SimulatorTask under the kernel): %s' % ('OK' if ok else 'FAILED rc=%d' % rc), flush=True)
+    return ok, {'rc': rc, 'tail': o.splitlines()[-1][:200] if o else ''}
+
+
 def main():
     mode = sys.argv[1] if len(sys.argv) > 1 else 'all'
     n = 48
@@ -161,6 +169,9 @@ def main():
     ok = True
     if mode in ('determinism', 'all'):
         o, res['determinism'] = determinism(n)
+        ok = ok and o
+    if mode in ('fidelity', 'all'):
+        o, res['fidelity'] = fidelity()
         ok = ok and o
     if mode in ('sensitivity', 'all'):
         o, r = sensitivity(only)
